@@ -65,3 +65,15 @@ claim('C15', 'property-based testing: corpus, generated programs, mutants, trunc
       'Exploration: ~16 000 (quick) inputs: never Error::Parse, prefix tiling, strict acceptance of exactly the covered prefix with an identical tree, equal trees when strict mode accepts, unchanged tree (white space aside) after appending unparsable text.',
       'Appended junk cannot continue the last description.',
       'DESIGN.md 6 C15')
+claim('C07', 'stateful property-based testing: generated call histories (entry point x pooled input incl. state-polluting inputs) followed by a probe, differential against a fresh-thread reference',
+      'Exploration: ~6 000 self-contained histories (0-12 calls + probe, new thread per case), ~6 000 on a long-lived thread where residue accumulates, and all (first input, probe input) pairs; inputs are copied into one reused buffer so the pointer-keyed memo sees the same address with new contents. The probe must equal the same call on a fresh thread (text, origins, defines, tree, error).',
+      'Results are compared through Debug renderings; the input pool is fixed (harness/src/props/calls.rs).',
+      'DESIGN.md 6 C07')
+claim('C08', 'property-based testing / fuzzing in-process: token soups, mutants, truncations, arbitrary bytes in files, hostile define tables through every public entry point and tree accessor under catch_unwind',
+      'Exploration: ~340 000 (quick) / 3.5 M (thorough) adversarial inputs through preprocess*, parse_sv*, parse_lib*, tree iteration, events, Display, Debug, get_str, get_str_trim, get_origin, Locate::try_from, origin(); no panic allowed; ReadUtf8 / File / Include structure checked for unreadable and missing files. Built with debug assertions and overflow checks on.',
+      'Stack exhaustion by nesting is outside the claim (inputs nested deeper than 24 are skipped and counted).',
+      'DESIGN.md 6 C08')
+claim('C19', 'stress exploration (property-based plans of concurrent calls released by a barrier, repeated), differential against sequential fresh-thread references',
+      'Exploration: 240 (quick) / 2 400 (thorough) generated plans of 2-16 threads x 3-10 calls, each plan repeated 20-60 times; every concurrent result must equal the result of the same call run alone. The harness does not control the scheduler, so this explores interleavings under load rather than enumerating them.',
+      'Detects shared mutable state introduced between threads with high probability, not with certainty.',
+      'DESIGN.md 6 C19, 8')
